@@ -618,6 +618,23 @@ class NpShim:
         raise Unsupported("np.all of %r" % type(x))
 
     @staticmethod
+    def clip(x, lo=None, hi=None):
+        if isinstance(x, _np.ndarray):
+            out = _np.empty(x.shape, dtype=object)
+            for idx in _np.ndindex(x.shape):
+                out[idx] = lift(x[idx]).clip(min=lo, max=hi)
+            return out
+        return lift(x).clip(min=lo, max=hi)
+
+    @staticmethod
+    def isnan(x):
+        # the model is over the reals: no NaN (NaN behaviour is covered by correspondence runs)
+        if isinstance(x, _np.ndarray):
+            return _np.zeros(x.shape, dtype=bool)
+        lift(x)
+        return False
+
+    @staticmethod
     def logical_and(a, b):
         if isinstance(a, (bool, _np.bool_)):
             return b if a else False
